@@ -46,6 +46,29 @@ theorem blake2s_ctx_eq_spec (BITS : Nat) (key msg : Bytes) (hb : 0 < BITS ∧ (B
   rw [impl_s_eq_spec_s]
   exact blake2_ctx_eq_spec Spec.Blake2.s good_s .wrapping BITS key msg hb hk (fits_wrapping _ _)
 
+/-- the one-shot functions `hashing::blake2b_224/256/384/512(input)` = `Blake2b::<BITS>::new().update(input).finalize()`
+    = RFC 7693 unkeyed BLAKE2b with nn = BITS/8, ∀ input -/
+theorem hashing_blake2b_fixed (BITS : Nat) (hB : BITS ∈ [224, 256, 384, 512]) (msg : Bytes) :
+    Impl.Blake2.hashing_blake2 Impl.Blake2.b .wrapping BITS msg
+      = some (Spec.Blake2.blake2b (BITS / 8) [] msg) := by
+  rw [impl_b_eq_spec_b]
+  have h : BITS % 8 = 0 ∧ 0 < BITS ∧ BITS / 8 ≤ 64 := by
+    simp only [List.mem_cons, List.not_mem_nil, or_false] at hB
+    rcases hB with h | h | h | h <;> subst h <;> decide
+  unfold Spec.Blake2.blake2b
+  exact blake2_fixed_eq_spec Spec.Blake2.b good_b .wrapping BITS msg h.1 h.2 (fits_wrapping _ _)
+
+/-- `hashing::blake2s_224/256` -/
+theorem hashing_blake2s_fixed (BITS : Nat) (hB : BITS ∈ [224, 256]) (msg : Bytes) :
+    Impl.Blake2.hashing_blake2 Impl.Blake2.s .wrapping BITS msg
+      = some (Spec.Blake2.blake2s (BITS / 8) [] msg) := by
+  rw [impl_s_eq_spec_s]
+  have h : BITS % 8 = 0 ∧ 0 < BITS ∧ BITS / 8 ≤ 32 := by
+    simp only [List.mem_cons, List.not_mem_nil, or_false] at hB
+    rcases hB with h | h <;> subst h <;> decide
+  unfold Spec.Blake2.blake2s
+  exact blake2_fixed_eq_spec Spec.Blake2.s good_s .wrapping BITS msg h.1 h.2 (fits_wrapping _ _)
+
 /-- the former `+=` in an overflow-checked build: equal to RFC 7693 while the low counter word cannot overflow,
     i.e. key block + message < 2^64 bytes (BLAKE2b) -/
 theorem blake2b_eq_spec_checked (outlen : Nat) (key msg : Bytes) (ho : 1 ≤ outlen ∧ outlen ≤ 64) (hk : key.length ≤ 64)
